@@ -214,7 +214,7 @@ def cases(draw, tier):
         "nan_at": nan_at,
         "upper": draw(st.booleans()),
         "route": route,
-        "jitter": {"src": jsrc, "value": j, "decoy": draw(st.booleans()), "positional": draw(st.booleans())},
+        "jitter": {"src": jsrc, "value": j, "decoy": draw(st.booleans()), "positional": draw(st.booleans()), "zero": jsrc == "arg" and draw(st.integers(0, 4)) == 0},
         "tries": {"src": tsrc, "value": T, "decoy": draw(st.booleans())},
         "plan": plan,
     }
@@ -291,8 +291,11 @@ def check(case):
     u = U[dt]
     jsrc, tsrc = case["jitter"]["src"], case["tries"]["src"]
     j = DOC_JITTER[dt] if jsrc == "default" else float(case["jitter"]["value"])
+    if jsrc == "arg" and case["jitter"].get("zero"):
+        # an explicit jitter=0 ("do not perturb"): every try is with the matrix itself (the matrices were sized for the value)
+        j = 0.0
     T = DOC_TRIES if tsrc == "default" else int(case["tries"]["value"])
-    if T < 1 or not (j > 0):
+    if T < 1 or not (j > 0 or case["jitter"].get("zero")):
         raise HarnessError("case outside the domain: jitter=%r max_tries=%r" % (j, T))
     if route == "op" and (jsrc == "arg" or tsrc == "arg"):
         raise HarnessError("operator route takes jitter / max_tries from the settings only")
